@@ -29,9 +29,10 @@ var settingFlag = map[string]string{
 	"Now":         "today",
 }
 
-func flagStub(x *absint.Exec, s *absint.State, callee *ssa.Function, args []absint.Value) (absint.Value, bool) {
-	for _, m := range []string{"IsSet", "String", "Int", "Bool"} {
-		if isCtxMethod(callee, m) && len(args) == 2 {
+func flagStub(x *absint.Exec, s *absint.State, site ssa.CallInstruction, callee *ssa.Function, args []absint.Value) (absint.Value, bool) {
+	if m, _, ok := flagAccess(site); ok && len(args) == 2 {
+		switch m {
+		case "IsSet", "String", "Int", "Bool":
 			return absint.NewTerm("flag:"+m, args[1]), true
 		}
 	}
@@ -90,7 +91,7 @@ func ruleConfigFileTable(c *core.Ctx, rule string) {
 		return reachesAny(callee, 3, "os.Stat", "os.Lstat", "gcfg.v1.ReadInto", "os.Open")
 	}
 	x.Hooks.Call = func(x *absint.Exec, s *absint.State, site ssa.CallInstruction, callee *ssa.Function, fnv absint.Value, args []absint.Value) (absint.Value, bool) {
-		if v, ok := flagStub(x, s, callee, args); ok {
+		if v, ok := flagStub(x, s, site, callee, args); ok {
 			return v, true
 		}
 		if callee == nil {
@@ -233,6 +234,13 @@ func settingWriters(p *core.Program) []*ssa.Function {
 			if strings.HasSuffix(prm.Type().String(), "cli/v2.Context") {
 				takesCtx = true
 			}
+			if it, ok := prm.Type().Underlying().(*types.Interface); ok {
+				for i := 0; i < it.NumMethods(); i++ {
+					if it.Method(i).Name() == "IsSet" {
+						takesCtx = true // an interface that abstracts the context
+					}
+				}
+			}
 		}
 		if takesCtx {
 			out = append(out, fn)
@@ -273,7 +281,7 @@ func ruleGuardedOverrides(c *core.Ctx, rule, ruleNoDB string) {
 		x := newExec(c)
 		var bad, badNoDB []string
 		x.Hooks.Call = func(x *absint.Exec, s *absint.State, site ssa.CallInstruction, callee *ssa.Function, fnv absint.Value, args []absint.Value) (absint.Value, bool) {
-			if v, ok := flagStub(x, s, callee, args); ok {
+			if v, ok := flagStub(x, s, site, callee, args); ok {
 				return v, true
 			}
 			return nil, false
@@ -599,12 +607,30 @@ func ruleSettingTables(c *core.Ctx, rule string) {
 			declared[a] = true
 		}
 	}
+	// a spelling (name or alias) that stands for different flags on different levels: which flag a read through
+	// that spelling reaches depends on the command that runs
+	owners := map[string]map[string]bool{}
+	for _, d := range decls {
+		if len(d.Names) == 0 {
+			continue
+		}
+		for _, sp := range append(append([]string(nil), d.Names...), d.Aliases...) {
+			if owners[sp] == nil {
+				owners[sp] = map[string]bool{}
+			}
+			owners[sp][d.Names[0]] = true
+		}
+	}
 	for _, fr := range collectFlagReads(c.P) {
 		if fr.Name == "" {
 			continue
 		}
 		if !declared[fr.Name] {
 			c.Violate(rule, core.FuncName(fr.Fn), "read "+fr.Name, c.P.Pos(fr.Call.Pos()), "the code reads flag \""+fr.Name+"\", which no command declares: it can never be set from the command line", nil)
+			continue
+		}
+		if len(owners[fr.Name]) > 1 {
+			c.Violate(rule, core.FuncName(fr.Fn), "read "+fr.Name, c.P.Pos(fr.Call.Pos()), fmt.Sprintf("the code reads a flag through the spelling %q, which different levels declare for different flags (%s): under a command that declares its own %q the read reaches that flag instead of the intended one", fr.Name, strings.Join(keysOf(owners[fr.Name]), ", "), fr.Name), nil)
 		}
 	}
 	c.Universe(rule+" flag declarations", fmt.Sprintf("%d flag literals", len(decls)))
@@ -965,5 +991,96 @@ func ruleConfigLiterals(c *core.Ctx, rule string, want func(t types.Type) bool) 
 	}
 	if n == 0 {
 		c.Undecide(rule, "commands", "universe", "-", "no command builds a configuration structure from the options: the rule found nothing to check", nil)
+	}
+}
+
+// ruleReporterDateFormat is C14-R6: when Options.Load succeeds, the date layout
+// the reporters print with (ReporterConfig.DateFormat) is the layout the log is
+// parsed with (GlobalConfig.DateFormat) as it stands at the end of Load — so
+// the copy is taken after the flag, the environment and the configuration file
+// have been applied, whatever the order of the populate steps.
+func ruleReporterDateFormat(c *core.Ctx, rule string) {
+	load := c.P.LookupMethod(optionsPkg, "Options", "Load")
+	if !requireAnchor(c, rule, "options.Options.Load", load != nil) {
+		return
+	}
+	fname := core.FuncName(load)
+	recv := load.Params[0].Name()
+	x := newExec(c)
+	x.MaxDepth = 6
+	x.Hooks.Call = func(x *absint.Exec, s *absint.State, site ssa.CallInstruction, callee *ssa.Function, fnv absint.Value, args []absint.Value) (absint.Value, bool) {
+		if v, ok := flagStub(x, s, site, callee, args); ok {
+			return v, true
+		}
+		if callee == nil {
+			return nil, false
+		}
+		switch {
+		case callee.String() == "os.Stat" || callee.String() == "os.Lstat":
+			return &absint.Tuple{Elems: []absint.Value{absint.Sym{Name: "info"}, absint.Sym{Name: "staterr"}}}, true
+		case strings.HasSuffix(callee.String(), "gcfg.v1.ReadInto"):
+			return x.Fresh(s, "readerr"), true
+		case callee.String() == "os.Open":
+			return &absint.Tuple{Elems: []absint.Value{x.Fresh(s, "file"), x.Fresh(s, "openerr")}}, true
+		}
+		return nil, false
+	}
+	// only the switches that matter here stay path-sensitive
+	x.Track = func(atom string) bool {
+		return strings.Contains(atom, `"date-format"`) || strings.HasPrefix(atom, "nil(")
+	}
+	gLoc := "L:§" + recv + "·GlobalConfig·DateFormat"
+	rLoc := "L:§" + recv + "·ReporterConfig·DateFormat"
+	var bad []string
+	x.Hooks.Store = func(x *absint.Exec, s *absint.State, in *ssa.Store, addr, val absint.Value) {
+		p, ok := addr.(absint.Ptr)
+		if !ok {
+			return
+		}
+		switch p.Loc {
+		case rLoc:
+			cur := x.Load(s, absint.Ptr{Loc: gLoc}, nil)
+			if val.Key() == cur.Key() {
+				s.SetData("rcopy", "1")
+			} else {
+				s.SetData("rcopy", "other")
+				bad = append(bad, fmt.Sprintf("%s: the reporters' date layout is set to %s, not to the layout the log is parsed with (%s)", c.P.Pos(in.Pos()), val.Key(), cur.Key()))
+			}
+		case gLoc:
+			if s.Data["rcopy"] == "1" {
+				cur := x.Load(s, absint.Ptr{Loc: gLoc}, nil)
+				if val.Key() != cur.Key() {
+					bad = append(bad, fmt.Sprintf("%s: the layout the log is parsed with changes to %s after the reporters took their copy of it: print then writes headings in the old layout, which the same command cannot read back under --date-format", c.P.Pos(in.Pos()), val.Key()))
+				}
+			}
+		}
+	}
+	terms := x.Run(x.NewState(load, nil, nil))
+	if !account(c, x, rule, load) {
+		return
+	}
+	checked := 0
+	for _, tm := range terms {
+		if tm.Kind != "return" || len(tm.Ret) != 1 || nilnessOf(x, tm.State, tm.Ret[0]) == "nonnil" {
+			continue
+		}
+		checked++
+		if tm.State.Data["rcopy"] == "" {
+			bad = append(bad, "Load can succeed without giving the reporters the date layout ("+x.Valuation(tm.State)+")")
+		}
+	}
+	bad = uniq(bad)
+	if checked == 0 {
+		c.Undecide(rule, fname, "date-layout", c.P.Pos(load.Pos()), "no successful path through Options.Load was explored", nil)
+		return
+	}
+	if len(bad) == 0 {
+		c.Discharge(rule, fname, "date-layout", c.P.Pos(load.Pos()), fmt.Sprintf("on all %d successful paths the reporters copy GlobalConfig.DateFormat and it is not written afterwards", checked))
+	}
+	for i, m := range bad {
+		if i >= 3 {
+			break
+		}
+		c.Violate(rule, fname, "date-layout", c.P.Pos(load.Pos()), m, nil)
 	}
 }
